@@ -118,6 +118,12 @@ def derive(g, w, b, d, how):
             return None
         c = r.choice(conts)
         h = w.rec_at(c, r.randrange(len(w.conts[c].records)))
+        if g.chance(0.3):
+            # into the container the record already belongs to: the result is still a new, independent record
+            nh, err = w.add_record(c, h)
+            if nh is None:
+                return None
+            return ("rec", c, h, nh)
         t = w.new_doc()
         b._init_scope(t)
         nh, err = w.add_record(t, h)
